@@ -1299,6 +1299,13 @@ def run():
             "phase_wall_s": phase,
             "samples": [sample],
         }
+        # extra specification beyond the listed properties (never a VIOLATION): what the real
+        # sender puts on the wire, judged by RtpSenderObs.tla / TraceRtpSender.tla
+        try:
+            from . import x_rtpsender
+            rep.coverage["extra_specs"] = {"RtpSenderObs": x_rtpsender.stage(thorough, seed())}
+        except Exception as exc:      # the extra stage must never break the property check
+            rep.coverage["extra_specs"] = {"RtpSenderObs": {"error": "%s: %s" % (type(exc).__name__, exc)}}
         rep.assumptions = [
             "PLI on the wire is the observable sign that the receiver's buffer discarded packets",
             "recovery is demanded only when every feedback packet and retransmission was delivered at once, "
